@@ -61,7 +61,23 @@ def _failed_content_cmp(fn, node, pol) -> bool:
             return False
         while isinstance(node, ast.UnaryOp) and isinstance(node.op, ast.Not):
             node, pol = node.operand, (not pol if pol is not None else None)
-    return _is_content_cmp(node) and pol is False
+    return _cmp_failed(fn, node, pol)
+
+
+def _cmp_failed(fn, node, pol) -> bool:
+    """`node` evaluating to `pol` says that two whole contents differ: `a == b` false, `a != b` true, `_contents_eq(..)` false.
+    A side that is a read of a file (`f.read()`) or a local holding one counts as contents."""
+    from .common import expand_locals
+    if isinstance(node, ast.Compare) and len(node.ops) == 1 and isinstance(node.ops[0], ast.NotEq):
+        node = ast.Compare(left=node.left, ops=[ast.Eq()], comparators=node.comparators)
+        pol = (not pol) if pol is not None else None
+    if _is_content_cmp(node):
+        return pol is False
+    if isinstance(node, ast.Compare) and len(node.ops) == 1 and isinstance(node.ops[0], ast.Eq):
+        sides = [expand_locals(fn, x) for x in (node.left, node.comparators[0])]
+        if all(isinstance(x, ast.Name) or t.endswith(".read()") for x, t in zip((node.left, node.comparators[0]), sides)):
+            return pol is False
+    return False
 
 
 GUARDED = [(f"{CORE}:Kconfig.write_config", "filename"), (f"{CORE}:Kconfig._write_if_changed", "filename"),
@@ -85,6 +101,8 @@ def r13_1(ctx):
             if any(x is _t for x in ast.walk(st) if not isinstance(st, (ast.If, ast.For, ast.While, ast.Try)) or True) and \
                     any(x is _t for x in ([y for it in st.items for y in ast.walk(it.context_expr)] if isinstance(st, ast.With) else ast.walk(st))):
                 p.events.append(("OPEN", st.lineno, None))
+            if isinstance(st, ast.Assign) and len(st.targets) == 1 and isinstance(st.targets[0], ast.Name):
+                p.events.append(("ASSIGN:" + st.targets[0].id, st.lineno, st.value))
 
         paths = Enumerator(on_stmt, max_iter=1).run(f.node.body, Path())
         bad = 0
@@ -94,7 +112,24 @@ def r13_1(ctx):
                 continue
             n_open += 1
             ln = [e[1] for e in p.events if e[0] == "OPEN"][0]
-            compared = any(_failed_content_cmp(f.node, node, pol) and l2 <= ln for c, pol, l2, node in p.conds)
+            def _flag_value(node, line, p=p):
+                """the value last assigned (on this path, before `line`) to the flag local the condition tests"""
+                neg = False
+                while isinstance(node, ast.UnaryOp) and isinstance(node.op, ast.Not):
+                    node, neg = node.operand, not neg
+                if not isinstance(node, ast.Name):
+                    return None, neg
+                last = [e for e in p.events if e[0] == "ASSIGN:" + node.id and e[1] <= line]
+                return (last[-1][2] if last else None), neg
+
+            def _failed(c, pol, l2, node):
+                if _failed_content_cmp(f.node, node, pol):
+                    return True
+                v, neg = _flag_value(node, l2)
+                if v is None or pol is None:
+                    return False
+                return _cmp_failed(f.node, v, (not pol) if neg else pol)
+            compared = any(_failed(c, pol, l2, node) and l2 <= ln for c, pol, l2, node in p.conds)
             absent = any(c in (f"os.path.exists({param})", f"exists({param})") and pol is False for c, pol, _, _ in p.conds)
             if not (compared or absent):
                 bad += 1
@@ -277,6 +312,8 @@ def r13_3(ctx):
         for n in ast.walk(src):
             if n is target:
                 p.events.append(("OPEN", st.lineno, None))
+            if isinstance(st, ast.Assign) and len(st.targets) == 1 and isinstance(st.targets[0], ast.Name):
+                p.events.append(("ASSIGN:" + st.targets[0].id, st.lineno, st.value))
             if isinstance(n, ast.Call) and ast.unparse(n.func) == "_save_old" and n.args and ast.unparse(n.args[0]) == "filename":
                 p.events.append(("BACKUP", st.lineno, None))
             if isinstance(n, ast.Call) and ast.unparse(n.func) in ("open", "os.open") and n is not target and "filename" in ast.unparse(n) \
